@@ -13,7 +13,9 @@ def generate(rng, tier):
         k = rng.randint(1, 9) if tier == "quick" else rng.randint(1, 30)
         pts = sorted(rng.sample(PTS, rng.randint(2, 7)))
         r = rng.random()
-        if r < 0.55:
+        if r < 0.1:
+            st = tiny_alphabet_spec(rng, k)
+        elif r < 0.55:
             st = planted_equiv(rng, k, pts)
         else:
             st = complete_spec(rng, k, pts, full_cover_prob=0.2)[0]
